@@ -95,6 +95,14 @@ static char *get_basename(const char *name)
 }
 #endif /* LIBXMP_CORE_PLAYER */
 
+static void reset_test_info(struct xmp_test_info *info)
+{
+	if (info != NULL) {
+		*info->name = 0;	/* a failed test reports empty strings */
+		*info->type = 0;
+	}
+}
+
 static int test_module(struct xmp_test_info *info, HIO_HANDLE *h)
 {
 	char buf[XMP_NAME_SIZE];
@@ -141,6 +149,8 @@ int xmp_test_module(const char *path, struct xmp_test_info *info)
 #endif
 	int ret;
 
+	reset_test_info(info);
+
 	ret = libxmp_get_filetype(path);
 
 	if (ret == XMP_FILETYPE_NONE) {
@@ -178,6 +188,8 @@ int xmp_test_module_from_memory(const void *mem, long size, struct xmp_test_info
 	HIO_HANDLE *h;
 	int ret;
 
+	reset_test_info(info);
+
 	if (size <= 0) {
 		return -XMP_ERROR_INVALID;
 	}
@@ -198,6 +210,8 @@ int xmp_test_module_from_file(void *file, struct xmp_test_info *info)
 #ifndef LIBXMP_NO_DEPACKERS
 	char *temp = NULL;
 #endif
+
+	reset_test_info(info);
 
 	if ((h = hio_open_file((FILE *)file)) == NULL)
 		return -XMP_ERROR_SYSTEM;
@@ -226,6 +240,8 @@ int xmp_test_module_from_callbacks(void *priv, struct xmp_callbacks callbacks,
 {
 	HIO_HANDLE *h;
 	int ret;
+
+	reset_test_info(info);
 
 	if ((h = hio_open_callbacks(priv, callbacks)) == NULL)
 		return -XMP_ERROR_SYSTEM;
